@@ -58,3 +58,70 @@ def f5_autosave_not_drained(seed):
     r, out = rec.check(); d.append("check -> %s" % out["exit"])
     a.destroy()
     return rec, d
+
+
+def fix_frames(seed):
+    """the frame of fix under ranges and filters (C12, C05): what fix may create, write, rename or remove when it re-creates
+    a missing file and then meets files it does not finish (range ends inside them), files it must leave alone (-e on a file
+    that is not the recorded version), files that are not selected (-f, -d, -m)"""
+    import random
+    rng = random.Random(seed)
+    a = arr.Array(arr.Conf(nd=2, np=2, copies=2), seed=seed)
+    n1, n2 = rng.choice([(3, 3), (2, 4), (1, 3)])
+    a.write_file(0, "A", list(range(1, 1 + n1)), mtime=11)
+    a.write_file(0, "B", list(range(10, 10 + n2)), mtime=12)
+    a.write_file(0, "K", [20, ('s', 21)], mtime=13)
+    a.write_file(1, "C", [30, 31], mtime=14)
+    a.write_file(1, "sub/F", [40, 41, 42], mtime=15)
+    rec = recorder.Recorder(a)
+    d = ["init A B K / C sub/F"]
+    rec.sync(); d.append("sync")
+    snap = a.clone()
+    try:
+        def again():
+            # back to the synced tree
+            for dd in range(2):
+                a.lose_disk(dd)
+            import shutil, os
+            for dd in range(2):
+                shutil.rmtree(a.ddir(dd)); shutil.copytree(snap.ddir(dd), a.ddir(dd), symlinks=True)
+            rec.env("data disks put back to the synced tree"); d.append("reset data")
+        # 1. a missing file is re-created, the range ends inside the next file of the disk
+        a.remove(0, "A"); rec.env("lose A", damage=True)
+        r, o = rec.fix("-S", "0", "-B", str(n1 + 1)); d.append("lose A; fix -S 0 -B %d -> %s" % (n1 + 1, o["exit"]))
+        r, o = rec.fix(); d.append("fix -> %s" % o["exit"])
+        again()
+        # 2. the range stops inside the missing file itself
+        a.remove(0, "B"); rec.env("lose B", damage=True)
+        r, o = rec.fix("-S", "0", "-B", str(n1 + 1)); d.append("lose B; fix -S 0 -B %d -> %s" % (n1 + 1, o["exit"]))
+        r, o = rec.fix(); d.append("fix -> %s" % o["exit"])
+        again()
+        # 3. silent error found by scrub, the user deletes the damaged file, fix -e / -b
+        a.corrupt_block(0, "B", 0, "flip"); rec.env("corrupt B[0]", damage=True)
+        r, o = rec.scrub("full"); d.append("corrupt B[0]; scrub -> %s" % o["exit"])
+        a.remove(0, "B"); rec.env("delete B", damage=True)
+        a.remove(0, "A"); rec.env("delete A", damage=True)
+        r, o = rec.fix(filt={"bad": rng.choice(["file", "block"])}); d.append("delete A B; fix -e/-b -> %s" % o["exit"])
+        r, o = rec.fix(filt={"missing": True}); d.append("fix -m -> %s" % o["exit"])
+        r, o = rec.fix(); d.append("fix -> %s" % o["exit"])
+        r, o = rec.scrub("bad"); d.append("scrub -p bad -> %s" % o["exit"])
+        again()
+        # 4. -e with a file that was rewritten since the sync (not the recorded version) and has a block marked bad
+        a.corrupt_block(1, "C", 1, "byte"); rec.env("corrupt C[1]", damage=True)
+        r, o = rec.scrub("full"); d.append("corrupt C[1]; scrub -> %s" % o["exit"])
+        a.write_file(1, "C", [50, 51], mtime=30); rec.env("rewrite C")
+        a.remove(1, "sub/F"); rec.env("lose sub/F", damage=True)
+        r, o = rec.fix(filt={"bad": "file"}); d.append("rewrite C, lose sub/F; fix -e -> %s" % o["exit"])
+        r, o = rec.fix(filt={"names": ["F"]}); d.append("fix -f F -> %s" % o["exit"])
+        again()
+        # 5. -d and -f leave the other disk / the other files alone, parity included
+        a.remove(0, "K"); a.remove(1, "C"); rec.env("lose K and C", damage=True)
+        a.corrupt_parity(0, 0, "flip"); rec.env("corrupt parity 0@0", damage=True)
+        r, o = rec.fix(filt={"disks": [1]}); d.append("lose K C, parity damage; fix -d d2 -> %s" % o["exit"])
+        r, o = rec.fix(filt={"names": ["K"]}); d.append("fix -f K -> %s" % o["exit"])
+        r, o = rec.fix(filt={"disks": [], "plevels": [1]}); d.append("fix -d parity -> %s" % o["exit"])
+        r, o = rec.check(); d.append("check -> %s" % o["exit"])
+    finally:
+        snap.destroy()
+        a.destroy()
+    return rec, d
